@@ -16,6 +16,11 @@ ASSUMPTIONS = ['fancy-index assignment with repeated cells is modelled as last-w
 LABELS = ['A', 'B', 'C']
 
 
+def pre_build():
+    import translate
+    return [translate.gen_formulas_c05()]
+
+
 def gen_cases(rng, tier):
     n = {'quick': 260, 'thorough': 5000, 'search': 150}[tier]
     cases = []
